@@ -540,6 +540,13 @@ pub fn selected(name: &str) -> bool {
 }
 
 /// Something to borrow from a dependency.
+/// A concrete dependency type that client cases reach through an absolute path (`::vrt::ExtCfg`).
+#[derive(Clone, Copy, Debug)]
+pub struct ExtCfg {
+    pub name: &'static str,
+    pub id: u32,
+}
+
 pub trait HasName {
     fn name(&self) -> &str;
 }
